@@ -20,8 +20,6 @@ rm -f $WS/verifroot/known_findings.d/*.txt; [ -d /verif/known_findings.d ] && rs
 if ! $WS/run.sh --build-only; then echo "BUILD FAILED"; exit 4; fi
 ARGS=${MUT_ARGS:---tier quick}
 for P in "$@"; do
-  OUT=$($WS/harness/target/release/check $P $ARGS --no-evidence 2>/dev/null | grep -v "^KNOWN-FINDING" | tail -3 | tr '\n' ' ' | cut -c1-400)
-  CODE=${PIPESTATUS[0]}
   VERIF_ROOT=$WS/verifroot $WS/harness/target/release/check $P $ARGS --no-evidence >/tmp/mut-out-$WSN.log 2>/dev/null; CODE=$?
   echo "$P exit=$CODE $(grep -v '^KNOWN-FINDING' /tmp/mut-out-$WSN.log | tail -2 | tr '\n' ' ' | cut -c1-300)"
 done
